@@ -14,8 +14,8 @@ FLOW_SIZES = [(6,), (10,)]
 
 
 def observe(job):
-    t, size, max_press, max_move, seed, max_steps = job
-    return wtree.observe_geometry(t, "utf8", size, max_press, max_move, seed, max_steps)
+    t, size, max_press, max_move, seed, max_steps, max_hpress = job
+    return wtree.observe_geometry(t, "utf8", size, max_press, max_move, seed, max_steps, max_hpress)
 
 
 CURSOR_LEAVES = ("TEdit",)
@@ -49,6 +49,39 @@ def sizes_for(t):
     if "fixed" in modes:
         out.append(())
     return out
+
+
+def tight_sizes(t, modes_sizes):
+    """Generator guidance only: sizes (same modes, same rows) at whose width some real Edit of the tree is given exactly the
+    columns one of its lines needs (the text fills the line, the cursor behind it has no cell of its own)."""
+    import urwid
+
+    wtree.set_enc("utf8")
+    out = []
+    for base in modes_sizes:
+        if not base:
+            continue
+        for c in range(2, 15):
+            size = (c, *base[1:])
+            if size in modes_sizes or size in out:
+                continue
+            try:
+                wd = wtree.World()
+                w = wd.build(t, "utf8")
+                w.render(size, True)
+            except Exception:  # noqa: BLE001
+                continue
+            for lw in wd.probes.values():
+                if hasattr(lw, "edit_text") and lw.last is not None:
+                    lines = (lw.caption + lw.edit_text).split("\n")
+                    if any(ln and urwid.calc_width(ln, 0, len(ln)) == lw.last[0] for ln in lines):
+                        out.append(size)
+                        break
+    return out
+
+
+def tight_job(job):
+    return tight_sizes(job[1], job[2])
 
 
 def path_to(t, pid, acc=()):
@@ -100,9 +133,12 @@ def _handle(chk, traces, res):
         tr = traces[ti]
         e = tr["ev"][l - 1]
         r0 = tr["ev"][0]
+        if e["t"] == "press" and e.get("after"):       # a press inside a history: the geometry is that of the step before it
+            r0 = next(x for x in reversed(tr["ev"][:l - 1]) if x["t"] in ("step", "render"))
         subs = list(c01.sub(tr["term"]))
         sig = {"root": tr["term"]["k"], "event": e["t"], "mode": ("fixed", "flow", "box")[len(tr["size"])], "exc": e.get("exc", "") or e.get("gcc_exc", "")}
         sig["step"] = (e["op"] + ":" + e["key"]) if e["t"] == "step" else ""
+        sig["after_steps"] = 1 if e.get("after") else 0
         if e["t"] in ("press", "move"):
             pid = r0["grid"][e["row"]][e["col"]]
             on = set(path_to(tr["term"], pid) or ())
@@ -124,10 +160,14 @@ def _handle(chk, traces, res):
         verdict = chk.reject(f"C09.{why}", sig, {"term": tr["term"], "show": wtree.show(tr["term"]), "size": tr["size"], "event_index": l, "observed": obs,
                                                  "grid": ["".join(chr(64 + v) if v else "." for v in r) for r in r0["grid"]],
                                                  "leaves": [{k: v for k, v in lf.items() if k != "acc"} for lf in r0["leaves"]],
-                                                 "max_press": tr["max_press"], "max_move": tr["max_move"], "seed": tr["seed"], "max_steps": tr["max_steps"]})
+                                                 "max_press": tr["max_press"], "max_move": tr["max_move"], "seed": tr["seed"], "max_steps": tr["max_steps"],
+                                                 "max_hpress": tr["max_hpress"]})
         if verdict == "known" and l < len(tr["ev"]):
+            # continue on the geometry in force after the rejected event (the last rendering / step up to it)
+            k = max(i for i, x in enumerate(tr["ev"][:l]) if x["t"] in ("step", "render"))
+            head = dict(tr["ev"][k], t="render", skipcur=1, steps=tr["ev"][0]["steps"] + sum(1 for x in tr["ev"][:k + 1] if x["t"] == "step"))
             rest = dict(tr)
-            rest["ev"] = [dict(r0, skipcur=1), *tr["ev"][max(l, 1):]]
+            rest["ev"] = [head, *tr["ev"][max(l, 1):]]
             cont.append(rest)
     return cont
 
@@ -158,24 +198,34 @@ def run(chk):
         d1_run = []
         for key in sorted(by):
             d1_run += rng.sample(by[key], min(len(by[key]), 22 if key[1] else 30))
-        max_press, max_move, max_steps = 20, 12, 5
+        max_press, max_move, max_steps, max_hpress = 20, 12, 5, 6
     else:
         d1_run = d1
-        max_press, max_move, max_steps = 60, 24, 12
+        max_press, max_move, max_steps, max_hpress = 60, 24, 12, 16
     terms = [wtree.renumber(t) for t in d1_run + sims if any(k in wtree.TAGGED_KINDS for k in wtree.kinds(t))]
     chk.note(f"terms: depth<=1 {len(d1_run)}/{len(d1)}, simulated {len(sims)}")
-    jobs = []
+    jobs, tjobs, tight_at = [], [], set()
     for i, t in enumerate(terms):
         szs = sizes_for(t)
         if quick and len(szs) > 3:
             szs = rng.sample(szs, 3)
+        if "TEdit" in wtree.kinds(t):
+            base = {len(sz): sz for sz in szs}          # one size per mode
+            tjobs.append((i, t, [base[k] for k in sorted(base)]))
         for size in szs:
-            jobs.append((t, size, max_press, max_move, chk.seed * 7919 + i, max_steps))
+            jobs.append((t, size, max_press, max_move, chk.seed * 7919 + i, max_steps, max_hpress))
     procs = 4 if quick else 8
     with cf.ProcessPoolExecutor(procs) as ex:
+        # more sizes for the trees that hold a real Edit: widths at which one of its lines is exactly full
+        for (i, t, _b), tight in zip(tjobs, ex.map(tight_job, tjobs, chunksize=max(1, len(tjobs) // (procs * 8)))):
+            for size in (rng.sample(tight, min(len(tight), 2)) if quick else tight):
+                tight_at.add(len(jobs))
+                jobs.append((t, size, max_press, max_move, chk.seed * 7919 + i, max_steps, max_hpress))
         traces = list(ex.map(observe, jobs, chunksize=max(1, len(jobs) // (procs * 8))))
+    for k in tight_at:
+        traces[k]["tight"] = 1
     for tr, j in zip(traces, jobs):
-        tr["max_press"], tr["max_move"], tr["seed"], tr["max_steps"] = j[2], j[3], j[4], j[5]
+        tr["max_press"], tr["max_move"], tr["seed"], tr["max_steps"], tr["max_hpress"] = j[2], j[3], j[4], j[5], j[6]
     good = [tr for tr in traces if tr["ev"]]
     validate_all(chk, good, 4 if quick else 8)
     _coverage(chk, traces, good)
@@ -200,6 +250,12 @@ def _coverage(chk, traces, good):
         if not fit:
             continue
         ks = set(wtree.kinds(tr["term"]))
+        if tr.get("tight"):
+            bump("tight_size_traces")
+            if any(e["t"] == "step" and e["op"] in ("focus", "lbfocus") and fits_py(e) for e in tr["ev"]):
+                bump("tight_size_traces.focus_by_program")
+        if tr.get("replay_diverged"):
+            bump("history_replay_diverged(presses skipped)", tr["replay_diverged"])
         for k in ks:
             bump("fit.kind." + k)
         if r0["rcur"]:
@@ -221,8 +277,24 @@ def _coverage(chk, traces, good):
                         bump("step_judged.cursor_moved_inside_ListBox")
                 nontriv.add((json.dumps(tr["term"]), tuple(tr["size"]), "s", si, e["op"] + e["key"]))
             prev = e
+        geo, geo_fits = r0, True
         for e in tr["ev"][1:]:
             if e["t"] == "step":
+                geo, geo_fits = e, fits_py(e)
+                if geo_fits and e["op"] in wtree.STRUCT_OPS:
+                    bump("step_judged.structure." + e["op"])
+                    # an Edit given exactly the columns its line needs, or clipped, was asked for its cursor after the focus was changed by program
+                    if e["op"] in ("focus", "lbfocus") and e["rcur"] and any(lf["kind"] == "TEdit" and lf["rendered"] for lf in e["leaves"]):
+                        bump("step_judged.focus_by_program_with_Edit")
+                continue
+            if e["t"] == "press" and e.get("after"):
+                if not geo_fits:
+                    continue
+                lf = {x["id"]: x for x in geo["leaves"]}.get(geo["grid"][e["row"]][e["col"]])
+                if lf and not lf["bg"]:
+                    bump("press_after_structure_step")
+                    bump("press_after_structure_step." + geo["op"])
+                    nontriv.add((json.dumps(tr["term"]), tuple(tr["size"]), "hp", e["after"], e["col"], e["row"]))
                 continue
             pid = r0["grid"][e["row"]][e["col"]]
             lf = ids.get(pid)
@@ -254,10 +326,16 @@ def _coverage(chk, traces, good):
                        "ListBox (all well-formed depth<=1 terms, TLC-simulated deeper ones); each at box/flow/fixed "
                        "sizes of every mode it reports; move cells: corners of the leaves' areas first, then random; then a history of keys / application cursor moves, "
                        "the reported cursor taken before the next rendering; non-trivial = distinct (term, size, cell) press or move events on a foreground leaf "
-                       "and judged history steps at a size satisfying the fit precondition")
+                       "and judged history steps at a size satisfying the fit precondition; histories also change the structure by program (focus_position of a "
+                       "container, a ListBox's focus through its walker, set_focus_valign, items deleted / inserted above the focus, one frame drawn without "
+                       "the focus) and hit-test the state reached (presses on copies brought there by the same steps); trees with a real Edit also at widths "
+                       "where one of its lines is exactly full")
     chk.cov["exhaustive"] = True
     for need in ("size_fits", "cursor_compared", "press_on_leaf", "press_on_footer_of_frame_with_header", "press_on_footer_of_frame_with_header.leaf_uses_the_row", "move_accepted", "move_refused", "move_on_real_TEdit", "move_on_corner_of_leaf_area",
-                 "move_on_cell_touching_another_cursor_leaf", "step.key", "step.setpos", "step.probecur", "step_judged", "step_judged.key_handled",
+                 "move_on_cell_touching_another_cursor_leaf", "step.key", "step.setpos", "step.probecur", "step_judged",
+                 "step_judged.focus_by_program_with_Edit", "press_after_structure_step", "tight_size_traces", "tight_size_traces.focus_by_program",
+                 *("step_judged.structure." + o for o in wtree.STRUCT_OPS),
+                 *("press_after_structure_step." + o for o in ("lbfocus", "lbvalign", "lbdel", "lbins", "focus")), "step_judged.key_handled",
                  "step_judged.cursor_moved", "step_judged.cursor_moved_inside_ListBox") + tuple(
             "fit.kind." + k for k in ("Pile", "Columns", "Frame", "Overlay", "GridFlow", "ListBox", "Padding", "Filler", "LineBox", "AttrMap", "BoxAdapter")):
         if not cc.get(need):
@@ -284,8 +362,8 @@ def _coverage(chk, traces, good):
 def replay(chk, path):
     with open(path) as f:
         rp = json.load(f)["replay"]
-    tr = observe((rp["term"], tuple(rp["size"]), rp["max_press"], rp["max_move"], rp["seed"], rp.get("max_steps", 0)))
-    tr["max_press"], tr["max_move"], tr["seed"], tr["max_steps"] = rp["max_press"], rp["max_move"], rp["seed"], rp.get("max_steps", 0)
+    tr = observe((rp["term"], tuple(rp["size"]), rp["max_press"], rp["max_move"], rp["seed"], rp.get("max_steps", 0), rp.get("max_hpress", 0)))
+    tr["max_press"], tr["max_move"], tr["seed"], tr["max_steps"], tr["max_hpress"] = rp["max_press"], rp["max_move"], rp["seed"], rp.get("max_steps", 0), rp.get("max_hpress", 0)
     if not tr["ev"]:
         chk.note("term no longer renders")
         return chk.finish()
